@@ -573,15 +573,28 @@ fn verif_root() -> PathBuf {
 }
 
 fn load_known(root: &Path) -> Vec<KnownEntry> {
-    let p = root.join("known_findings.json");
-    match std::fs::read_to_string(&p) {
-        Ok(s) => {
-            let v: Value = serde_json::from_str(&s).unwrap_or(Value::Null);
-            let arr = v.get("findings").cloned().unwrap_or(Value::Array(vec![]));
-            serde_json::from_value(arr).unwrap_or_default()
+    fn entries(p: &Path) -> Vec<KnownEntry> {
+        match std::fs::read_to_string(p) {
+            Ok(s) => {
+                let v: Value = serde_json::from_str(&s).unwrap_or(Value::Null);
+                let arr = v.get("findings").cloned().unwrap_or(Value::Array(vec![]));
+                serde_json::from_value(arr).unwrap_or_default()
+            }
+            Err(_) => vec![],
         }
-        Err(_) => vec![],
     }
+    let mut all = entries(&root.join("known_findings.json"));
+    // per-property fragments (same format), merged at load time
+    if let Ok(dir) = std::fs::read_dir(root.join("known_findings.d")) {
+        let mut files: Vec<PathBuf> = dir.filter_map(|e| e.ok()).map(|e| e.path()).collect();
+        files.sort();
+        for f in files {
+            if f.extension().and_then(|e| e.to_str()) == Some("json") {
+                all.extend(entries(&f));
+            }
+        }
+    }
+    all
 }
 
 fn seed_from_env() -> u64 {
